@@ -369,6 +369,58 @@ def match_known(prop, cls, payload, known=None):
     return None
 
 
+KNOB_PARAMS = ('maxlen', 'maxsize', 'max_size', 'limit', 'capacity')
+
+
+def cap_size_knobs(cap):
+    """Knob randomisation ("buggify"), harness-side: wrap athlib functions that take a size bound (a
+    parameter called maxlen, maxsize, limit ... with an int default >= 4) so that the bound is capped at
+    `cap`.  Every athlib module global that refers to the original function is rebound.  A bounded cache
+    must be transparent at any size, so answers may not change; what changes is that caches sit at their
+    limit - and their eviction paths run - after two or three calls instead of twenty.
+    Returns the number of functions wrapped."""
+    if not cap:
+        return 0
+    import inspect, types, functools
+    mods = [m for name, m in sorted(sys.modules.items()) if name == 'athlib' or name.startswith('athlib.')]
+    n = 0
+    done = {}
+    for m in mods:
+        for k, v in list(vars(m).items()):
+            if not isinstance(v, types.FunctionType) or not (getattr(v, '__module__', '') or '').startswith('athlib'):
+                continue
+            if id(v) in done:
+                vars(m)[k] = done[id(v)][1]
+                continue
+            try:
+                sig = inspect.signature(v)
+            except Exception:
+                continue
+            names = list(sig.parameters)
+            hit = [p for p in names if p in KNOB_PARAMS and isinstance(sig.parameters[p].default, int)
+                   and not isinstance(sig.parameters[p].default, bool) and sig.parameters[p].default >= 4]
+            if not hit:
+                continue
+            pname = hit[0]
+            pos = names.index(pname)
+
+            def wrapped(*a, _f=v, _pos=pos, _pname=pname, _cap=cap, **kw):
+                if _pname in kw:
+                    if isinstance(kw[_pname], int):
+                        kw[_pname] = min(kw[_pname], _cap)
+                elif len(a) > _pos:
+                    if isinstance(a[_pos], int):
+                        a = a[:_pos] + (min(a[_pos], _cap),) + a[_pos + 1:]
+                else:
+                    kw[_pname] = _cap
+                return _f(*a, **kw)
+            functools.update_wrapper(wrapped, v)
+            done[id(v)] = (v, wrapped)
+            vars(m)[k] = wrapped
+            n += 1
+    return n
+
+
 class Counter(dict):
     """dict of ints with += on missing keys; merge() adds another one."""
     def inc(self, k, n=1):
